@@ -126,6 +126,27 @@ Definition script_content_inside_marshalled (v : jv) : bytes := replace (json_en
 (* ScriptContentOutsideStringLiteral *)
 Definition script_content_outside (v : jv) : bytes := json_encode v.
 
+(* scriptContent[T any](v T, insideStringLiteral bool) for an ARBITRARY Go type T.  All the function looks at is
+   (1) any(v).(string) - is the dynamic type exactly `string` - and (2) what json.Marshal(v) returns: the bytes, or an
+   error.  Which bytes those are is encoding/json's business (MarshalJSON / MarshalText methods of named scalar types,
+   struct tags, json.RawMessage, time.Time ...): nothing else about the type - not its reflect.Kind - plays a part.
+     as_string v = Some s   the dynamic type of v is string, with value s
+     marshal v   = None     json.Marshal fails (the error is returned, nothing is emitted)                           *)
+Section AnyGoType.
+  Variable GoValue : Type.
+  Variable as_string : GoValue -> option bytes.
+  Variable marshal : GoValue -> option bytes.
+  Definition script_content_any (inside : bool) (v : GoValue) : option bytes :=
+    match (if inside then as_string v else None) with
+    | Some s => Some (replace s)
+    | None =>
+        match marshal v with
+        | None => None
+        | Some jd => Some (if inside then replace jd else jd)
+        end
+    end.
+End AnyGoType.
+
 (* ------------------------------------------------------------------------------------------ *)
 (* html.EscapeString (= templ.EscapeString)                                                    *)
 Definition html_escape_byte (b : byte) : bytes :=
